@@ -94,9 +94,17 @@ def run(pid, tier, seed):
             lines = [x for x in open(tr).read().split("\n") if x.strip()]
             events += len(lines)
             rep.cov["samples"].append({"flavour": fl, "recorded_history_excerpt": [json.loads(x) for x in lines[1:5]]})
+            resets = [i + 1 for i, x in enumerate(lines) if '"reset"' in x]
+            tainted = set()   # histories (by their reset line) in which TLC already rejected a step: model and code have diverged
             for ln, reasons in sorted(verd.items()):
-                if any(x.startswith("driver-error") for x in reasons):
+                hist_id = max([r for r in resets if r <= ln] or [0])
+                real = [x for x in reasons if not x.startswith("driver-error")]
+                if not real:
+                    if hist_id in tainted:
+                        continue      # consequence of the earlier rejected step of the same history
                     raise ToolError("the random driver issued an action the model does not enable (%s line %d): %s" % (tr, ln, lines[ln - 1]))
+                tainted.add(hist_id)
+                reasons = real
                 ev = json.loads(lines[ln - 1])
                 k = max(1, ln - 25)
                 rep.violation("%s:%s:%s" % (fl, (ev.get("a") or ["dropall"])[0], "+".join(sorted(reasons))),
